@@ -159,7 +159,9 @@ let find_causes (sch : schema) (vds : vardef list) (j : json) (want : bool) : st
     else match List.find_opt try_set (subsets k quirk_keys) with
       | Some set -> Some (List.map fst set)
       | None -> go (k + 1) in
-  go 1
+  (* when the faithful model already gives the wanted verdict the implementation has left the model:
+     no recorded cause explains that *)
+  if try_set [] then None else go 1
 
 (* ---- paths as printed by renderPath:  x.a.[0].b ---- *)
 let steps_of_path (p : string) : step list option =
@@ -241,7 +243,7 @@ let handle (x : sexp) : (string * string) list =
     (* --- the reported position and the names in the message (Go's own verdict over Go's own normalised JSON) --- *)
     (if stage = "vars" then
        match impl_verdict pv_s, norm_s with
-       | (_, Some (kind, v, p, a1, a2, _)), nj when (match nj with L [A "none"] | L [A "unparsed"; _] -> false | _ -> true) ->
+       | (_, Some (kind, v, p, a1, a2, _)), nj when kind <> "unclassified" && (match nj with L [A "none"] | L [A "unparsed"; _] -> false | _ -> true) ->
          let nj = json_of nj in
          (* after default extraction the variable's default is part of the JSON *)
          let vds' = List.map (fun vd -> { vd with vd_default = None }) vds in
